@@ -3,7 +3,7 @@
           visit sequences in order, floats bit for bit);
    prop = the law's boolean checker accepts the implementation's observed output. *)
 From Coq Require Import ZArith String List Bool Floats.
-From SID Require Import Base Str Wire F64 ExactRef SetOps Comb VecF OrdMax PointLaws.
+From SID Require Import Base Str Wire F64 ExactRef SetOps SetMore Comb VecF OrdMax PointLaws.
 Import ListNotations.
 Local Open Scope list_scope.
 Open Scope string_scope.
@@ -55,7 +55,7 @@ Section Generic.
     | [a; x] => match asL a, as1 x, obs with
                 | Some l, Some t, VB o =>
                     let m := include eqb l t in
-                    mkv (Bool.eqb m o) (Bool.eqb (existsb (fun y => eqb y t) l) o) "-" (VB m)
+                    mkv (Bool.eqb m o) (check_include eqb l t o) "-" (VB m)
                 | _, _, _ => bad_case end
     | _ => bad_case
     end.
@@ -68,7 +68,7 @@ Definition d_maxmin (is_max : bool) (args : list val) (obs : val) : verdict :=
   | [a] => match as_LZ a with
            | Some l =>
                let m := if is_max then maxl l else minl l in
-               let corr := match m, obs with Err, VE _ => true | Ok z, VZ o => Z.eqb z o | _, _ => false end in
+               let corr := match m, obs with Err, VE (VZ 0%Z) => true | Ok z, VZ o => Z.eqb z o | _, _ => false end in
                let prop := match l, obs with
                            | [], VE _ => true
                            | _ :: _, VZ o => if is_max then check_max l o else check_min l o
@@ -86,7 +86,7 @@ Definition d_ashift (args : list val) (obs : val) : verdict :=
   match args, obs with
   | [VZ i; VZ s], VZ o =>
       if shift_domain i s then mkv (Z.eqb (ashift i s) o) (check_ashift i s o) "-" (VZ (ashift i s))
-      else mkv true true "-" VNil                    (* outside the property's quantifier: nothing claimed *)
+      else bad_case                                  (* outside the property's quantifier: never generated *)
   | _, _ => bad_case
   end.
 
@@ -125,7 +125,7 @@ Fixpoint val_eqb (a b : val) : bool :=
   | VZ x, VZ y => Z.eqb x y
   | VL l, VL k => (fix go (l k : list val) : bool :=
                      match l, k with [] , [] => true | x :: l', y :: k' => val_eqb x y && go l' k' | _, _ => false end) l k
-  | VE x, VE _ => true
+  | VE x, VE y => val_eqb x y
   | VNil, VNil => true
   | _, _ => false
   end.
@@ -179,11 +179,11 @@ Definition d_vecops (oracle : oracle_t) (args : list val) (obs : val) : verdict 
       match as_fvec va, as_fvec vb with
       | Some a, Some b =>
           let m := vecops_model (hyp_of oracle) a b f in
-          let prop := match dvec_of a, dvec_of b, dy_of f with
-                      | Some da, Some db, Some df =>
-                          if dv_forall moderate da && dv_forall moderate db && moderate df then vecops_check da db df obs else true
-                      | _, _, _ => true end in
-          mkv (val_eqb m obs) prop "-" m
+          match dvec_of a, dvec_of b, dy_of f with
+          | Some da, Some db, Some df =>
+              if dv_forall moderate da && dv_forall moderate db && moderate df then mkv (val_eqb m obs) (vecops_check da db df obs) "-" m
+              else bad_case
+          | _, _, _ => bad_case end
       | _, _ => bad_case
       end
   | _ => bad_case
@@ -211,11 +211,11 @@ Definition d_lineops (args : list val) (obs : val) : verdict :=
       match as_fvec vp, as_fvec vq with
       | Some p, Some q =>
           let m := lineops_model p q t in
-          let prop := match dvec_of p, dvec_of q, dy_of t with
-                      | Some dp, Some dq, Some dt =>
-                          if dv_forall moderate dp && dv_forall moderate dq && moderate dt then lineops_check dp dq dt obs else true
-                      | _, _, _ => true end in
-          mkv (val_eqb m obs) prop "-" m
+          match dvec_of p, dvec_of q, dy_of t with
+          | Some dp, Some dq, Some dt =>
+              if dv_forall moderate dp && dv_forall moderate dq && moderate dt then mkv (val_eqb m obs) (lineops_check dp dq dt obs) "-" m
+              else bad_case
+          | _, _, _ => bad_case end
       | _, _ => bad_case
       end
   | _ => bad_case
@@ -249,33 +249,47 @@ Definition d_matops (args : list val) (obs : val) : verdict :=
       match as_fmat va, as_fmat vb, as_fmat vc, as_fvec vv with
       | Some a, Some b, Some c, Some v =>
           let m := matops_model a b c v in
-          let prop := match dmat_of a, dmat_of b, dmat_of c, dvec_of v with
-                      | Some da, Some db, Some dc, Some dv =>
-                          if dm_forall moderate da && dm_forall moderate db && dm_forall moderate dc && dv_forall moderate dv
-                          then matops_check da db dc dv obs else true
-                      | _, _, _, _ => true end in
-          mkv (val_eqb m obs) prop "-" m
+          match dmat_of a, dmat_of b, dmat_of c, dvec_of v with
+          | Some da, Some db, Some dc, Some dv =>
+              if dm_forall moderate da && dm_forall moderate db && dm_forall moderate dc && dv_forall moderate dv
+              then mkv (val_eqb m obs) (matops_check da db dc dv obs) "-" m else bad_case
+          | _, _, _, _ => bad_case end
       | _, _, _, _ => bad_case
       end
   | _ => bad_case
   end.
 
-(* RotateBetweenVector: a, b |-> quaternion *)
+(* RotateBetweenVector: a, b |-> quaternion.
+   Law: unit quaternion (2^-30) carrying a onto b (sine of the angle <= 2^-30, same side). Two recorded defects, each excused ONLY for the
+   conjunct it breaks and only when the rest of what the branch must deliver is still verified, and the model agrees bit for bit:
+   - quat_fallback_half_turn: the code took its fallback branch (model's own test cos+1 < Minima; exactly: 1+cos < 2^-32) although b is not
+     exactly opposite: the result must still be a unit quaternion turning a onto -a;
+   - quat_norm_cancellation: generic branch with 1+cos < 2^-19: the direction must still be right within 2^-30 and | |q|^2-1 | <= 2^-16.
+   Anything else that fails the law — NaN components, exactly opposite pairs, larger 1+cos — is a property failure. *)
 Definition d_rotate (oracle : oracle_t) (args : list val) (obs : val) : verdict :=
   match args with
   | [va; vb] =>
       match as_fvec va, as_fvec vb with
       | Some a, Some b =>
-          let m := of_fquat (frotate_between (hyp_of oracle) (fun_of oracle "sin") (fun_of oracle "cos") a b) in
-          let '(prop, cls) :=
-            match dvec_of a, dvec_of b with
-            | Some da, Some db =>
-                if dv_forall moderate da && dv_forall moderate db && negb (dv_is0 da) && negb (dv_is0 db) then
-                  let p := match opt_quat obs with Some q => check_rotation q da db | None => false end in
-                  (p, if negb p && near_opposite da db then "quat_near_opposite" else "-")
-                else (true, "-")            (* a zero vector has no direction: nothing claimed *)
-            | _, _ => (true, "-") end in
-          mkv (val_eqb m obs) prop cls m
+          match dvec_of a, dvec_of b with
+          | Some da, Some db =>
+              if dv_forall moderate da && dv_forall moderate db && negb (dv_is0 da) && negb (dv_is0 db) then
+                let hyp := hyp_of oracle in
+                let m := of_fquat (frotate_between hyp (fun_of oracle "sin") (fun_of oracle "cos") a b) in
+                let corr := val_eqb m obs in
+                match opt_quat obs with
+                | None => mkv corr false "-" m
+                | Some q =>
+                    if check_rotation q da db then mkv corr true "-" m
+                    else if exactly_opposite da db then mkv corr false "-" m
+                    else if frotate_fallback hyp a b then
+                      if corr && cos_below 32 da db && check_half_turn q da then mkv corr false "quat_fallback_half_turn" m
+                      else mkv corr false "-" m
+                    else if corr && cos_below 19 da db && check_direction_loose_norm q da db then mkv corr false "quat_norm_cancellation" m
+                    else mkv corr false "-" m
+                end
+              else bad_case                 (* zero vector / outside the moderate range: outside the quantifier, never generated *)
+          | _, _ => bad_case end
       | _, _ => bad_case
       end
   | _ => bad_case
@@ -287,14 +301,12 @@ Definition d_axis_angle (oracle : oracle_t) (args : list val) (obs : val) : verd
       match as_fvec va with
       | Some a =>
           let m := of_fquat (fquat_axis_angle (hyp_of oracle) (fun_of oracle "sin") (fun_of oracle "cos") a ang) in
-          let prop :=
-            match dvec_of a, dy_of ang with
-            | Some da, Some dang =>
-                if dv_forall moderate da && negb (dv_is0 da) && moderate dang then
-                  match opt_quat obs with Some q => unit_quat q && parallel_or_zero (dq_v q) da | None => false end
-                else true
-            | _, _ => true end in
-          mkv (val_eqb m obs) prop "-" m
+          match dvec_of a, dy_of ang with
+          | Some da, Some dang =>
+              if dv_forall moderate da && negb (dv_is0 da) && moderate dang then
+                mkv (val_eqb m obs) (match opt_quat obs with Some q => unit_quat q && parallel_or_zero (dq_v q) da | None => false end) "-" m
+              else bad_case
+          | _, _ => bad_case end
       | None => bad_case
       end
   | _ => bad_case
@@ -330,14 +342,14 @@ Definition pointops_check (pts : list dvec) (v p q : dvec) (eps : dy) (obs : val
       ck_almost (dvx p) (dvx q) eps oae &&
       (if oclose then ck_almost (dvx p) (dvx q) eps true && ck_almost (dvy p) (dvy q) eps true && ck_almost (dvz p) (dvz q) eps true
        else ck_almost (dvx p) (dvx q) eps false || ck_almost (dvy p) (dvy q) eps false || ck_almost (dvz p) (dvz q) eps false) &&
-      (* UniqueAppend returns the list itself or the list with p appended *)
+      (* UniqueAppend: unchanged only if a member is within eps of p in every coordinate, extended by p only if none is (exact comparison) *)
       (match all_opt (map opt_vec oua) with
-       | Some r => list_eqb dv_eqb r pts || list_eqb dv_eqb r (pts ++ [p])
+       | Some r => ck_unique_append dv_eqb pts p eps r
        | None => false end) &&
-      (* degree <-> radian: d2r(x) * 180 = x * pi within the band, with the float64 constant for pi/180 *)
-      match dy_of od2r, dy_of or2d, dy_of c_deg2rad, dy_of c_rad2deg with
-      | Some a, Some b, Some k1, Some k2 => dnear tol_exp a (dmul eps k1) (dabs (dmul eps k1)) && dnear tol_exp b (dmul eps k2) (dabs (dmul eps k2))
-      | _, _, _, _ => false end
+      (* degree <-> radian against pi itself (112 binary digits), not against the code's constants *)
+      match dy_of od2r, dy_of or2d with
+      | Some a, Some b => ck_d2r eps a && ck_r2d eps b
+      | _, _ => false end
   | _ => false
   end.
 Definition d_pointops (args : list val) (obs : val) : verdict :=
@@ -346,12 +358,11 @@ Definition d_pointops (args : list val) (obs : val) : verdict :=
       match as_fvecs vpts, as_fvec vv, as_fvec vp, as_fvec vq with
       | Some pts, Some v, Some p, Some q =>
           let m := pointops_model pts v p q eps in
-          let prop := match dvecs_of pts, dvec_of v, dvec_of p, dvec_of q, dy_of eps with
-                      | Some dpts, Some dv, Some dp, Some dq, Some de =>
-                          if forallb (dv_forall moderate) dpts && dv_forall moderate dv && dv_forall moderate dp && dv_forall moderate dq && moderate de
-                          then pointops_check dpts dv dp dq de obs else true
-                      | _, _, _, _, _ => true end in
-          mkv (val_eqb m obs) prop "-" m
+          match dvecs_of pts, dvec_of v, dvec_of p, dvec_of q, dy_of eps with
+          | Some dpts, Some dv, Some dp, Some dq, Some de =>
+              if forallb (dv_forall moderate) dpts && dv_forall moderate dv && dv_forall moderate dp && dv_forall moderate dq && moderate de
+              then mkv (val_eqb m obs) (pointops_check dpts dv dp dq de obs) "-" m else bad_case
+          | _, _, _, _, _ => bad_case end
       | _, _, _, _ => bad_case
       end
   | _ => bad_case
@@ -366,18 +377,19 @@ Definition d_maxminF (is_max : bool) (args : list val) (obs : val) : verdict :=
            | Some l =>
                let m := if is_max then maxF l else minF l in
                let mv := match m with Ok z => VF z | Err => VE (VF 0%float) end in
-               let corr := match m, obs with Err, VE _ => true | Ok z, VF o => feqb_bits z o | _, _ => false end in
-               let prop := match l, obs with
-                           | [], VE _ => true
-                           | _ :: _, VF o =>
-                               match dlist_of l, dy_of o with
-                               | Some dl, Some d =>
-                                   existsb (feqb_bits o) l && forallb (fun x => if is_max then dleb x d else dleb d x) dl
-                               | None, _ => true            (* NaN / infinite members: no order claimed *)
-                               | Some _, None => false
-                               end
-                           | _, _ => false end in
-               mkv corr prop "-" mv
+               let corr := match m, obs with Err, VE (VF z) => feqb_bits z 0%float | Ok z, VF o => feqb_bits z o | _, _ => false end in
+               match dlist_of l with
+               | None => bad_case                          (* NaN / infinite members: outside the stated domain, never generated *)
+               | Some dl =>
+                   let prop := match l, obs with
+                               | [], VE _ => true
+                               | _ :: _, VF o =>
+                                   match dy_of o with
+                                   | Some d => existsb (feqb_bits o) l && forallb (fun x => if is_max then dleb x d else dleb d x) dl
+                                   | None => false end
+                               | _, _ => false end in
+                   mkv corr prop "-" mv
+               end
            | None => bad_case end
   | _ => bad_case
   end.
@@ -394,11 +406,37 @@ Definition d_newmatrix (args : list val) (obs : val) : verdict :=
             | Some dm, Some v0, Some v1, Some v2 =>
                 dm_eqb dm da && dv_eqb v0 (dm_col dvx da) && dv_eqb v1 (dm_col dvy da) && dv_eqb v2 (dm_col dvz da)
             | _, _, _, _ => false end
-        | None, _ => true
         | _, _ => false end in
-      mkv (val_eqb m obs) prop "-" m
+      match dmat_of a with Some da => if dm_forall moderate da then mkv (val_eqb m obs) prop "-" m else bad_case | None => bad_case end
   | None => bad_case
   end.
+
+(* ScalarOps: x, y, tol, ang |-> [AlmostEqual(x,y,tol); AlmostEqual(y,x,tol); DegreeToRadian(ang); RadianToDegree(ang); RadianToDegree(DegreeToRadian(ang))] *)
+Definition d_scalarops (args : list val) (obs : val) : verdict :=
+  match args with
+  | [VF x; VF y; VF tol; VF ang] =>
+      let m := VL [VB (almost_equal x y tol); VB (almost_equal y x tol); VF (deg2rad ang); VF (rad2deg ang); VF (rad2deg (deg2rad ang))] in
+      match dy_of x, dy_of y, dy_of tol, dy_of ang with
+      | Some dx, Some dy, Some dt, Some da =>
+          if wide dx && wide dy && wide dt && wide da then
+            let prop := match obs with
+                        | VL [VB o1; VB o2; VF od; VF or; VF ort] =>
+                            ck_almost dx dy dt o1 && ck_almost dy dx dt o2 && Bool.eqb o1 o2 &&
+                            match dy_of od, dy_of or, dy_of ort with
+                            | Some d, Some r, Some rt => ck_d2r da d && ck_r2d da r && ck_roundtrip da rt
+                            | _, _, _ => false end
+                        | _ => false end in
+            mkv (val_eqb m obs) prop "-" m
+          else bad_case
+      | _, _, _, _ => bad_case end
+  | _ => bad_case
+  end.
+
+(* the set helpers at float64: only NaN-free lists (== is not reflexive on NaN: outside the laws); +0 and -0 are one key *)
+Definition of_LF (l : list float) : val := VL (map VF l).
+Definition nan_free (args : list val) : bool :=
+  forallb (fun v => match v with VF f => negb (is_nan f) | _ => match as_LF v with Some l => negb (has_nanF l) | None => false end end) args.
+Definition guardF (f : list val -> val -> verdict) (args : list val) (obs : val) : verdict := if nan_free args then f args obs else bad_case.
 
 Definition table_C20 : table :=
   [("Union/int64", fun _ => d_union Z.eqb sort_Z as_LZ of_LZ); ("Union/string", fun _ => d_union String.eqb sort_strings as_LS of_LS);
@@ -406,6 +444,14 @@ Definition table_C20 : table :=
    ("Difference/int64", fun _ => d_difference Z.eqb as_LZ of_LZ); ("Difference/string", fun _ => d_difference String.eqb as_LS of_LS);
    ("Intersect/int64", fun _ => d_intersect Z.eqb as_LZ of_LZ); ("Intersect/string", fun _ => d_intersect String.eqb as_LS of_LS);
    ("Include/int64", fun _ => d_include Z.eqb as_LZ as_Z); ("Include/string", fun _ => d_include String.eqb as_LS as_S);
+   ("Union/int32", fun _ => d_union Z.eqb sort_Z as_LZ of_LZ); ("Unique/int32", fun _ => d_unique Z.eqb sort_Z as_LZ of_LZ);
+   ("Difference/int32", fun _ => d_difference Z.eqb as_LZ of_LZ); ("Intersect/int32", fun _ => d_intersect Z.eqb as_LZ of_LZ);
+   ("Include/int32", fun _ => d_include Z.eqb as_LZ as_Z);
+   ("Union/float64", fun _ => guardF (d_union PrimFloat.eqb fsortF as_LF of_LF)); ("Unique/float64", fun _ => guardF (d_unique PrimFloat.eqb fsortF as_LF of_LF));
+   ("Difference/float64", fun _ => guardF (d_difference PrimFloat.eqb as_LF of_LF)); ("Intersect/float64", fun _ => guardF (d_intersect PrimFloat.eqb as_LF of_LF));
+   ("Include/float64", fun _ => guardF (d_include PrimFloat.eqb as_LF as_F));
+   ("Max/int", fun _ => d_maxmin true); ("Min/int", fun _ => d_maxmin false); ("Max/int32", fun _ => d_maxmin true); ("Min/int32", fun _ => d_maxmin false);
+   ("Max/float32", fun _ => d_maxminF true); ("Min/float32", fun _ => d_maxminF false); ("ScalarOps", fun _ => d_scalarops);
    ("Max/int64", fun _ => d_maxmin true); ("Min/int64", fun _ => d_maxmin false);
    ("Max/float64", fun _ => d_maxminF true); ("Min/float64", fun _ => d_maxminF false); ("NewMatrix3", fun _ => d_newmatrix);
    ("CalculateArithmeticShift", fun _ => d_ashift);
